@@ -312,6 +312,24 @@ def errors_as(it, st, args, fname):
 def fmt_sprintf(it, st, args, fname):
     f = py_str(args[0])
     va = it.slice_values(st, args[1], 'varargs') if args[1].obj is not None else []
+    # a symbolic %d forks on sign and digit count (bounded): handled by expanding alternatives
+    for ai_, a_ in enumerate(va):
+        v_ = a_.v if isinstance(a_, Iface) else a_
+        t_ = a_.t if isinstance(a_, Iface) else None
+        if t_ is not None and t_ in E.TYPES and E.ty(t_)['kind'] == 'int' and is_sym(v_):
+            alts = decimal_alternatives(it, st, v_, E.ty(t_))
+            res = []
+            for cond, val in alts:
+                s2 = st.fork()
+                s2.pc.append(cond)
+                if not it.feasible(s2.pc, None):
+                    continue
+                va2 = list(va)
+                va2[ai_] = Iface('$decimal', Str(val))
+                sl = it.make_slice(s2, 'any' if 'any' in E.TYPES else 'interface{}', va2)
+                res += fmt_sprintf(it, s2, [args[0], sl], fname)
+            it.ctx.states += max(0, len(res) - 1)
+            return res
     out = []
     i = 0
     ai = 0
@@ -335,7 +353,9 @@ def fmt_sprintf(it, st, args, fname):
         ai += 1
         v = a.v if isinstance(a, Iface) else a
         t = a.t if isinstance(a, Iface) else None
-        if verb in 'sv' and isinstance(v, Str):
+        if t == '$decimal' and verb in 'dv':
+            out += list(v.b)
+        elif verb in 'sv' and isinstance(v, Str):
             out += list(v.b)
         elif verb in 'dv' and t is not None and E.ty(t)['kind'] == 'int' and not is_sym(v):
             tt = E.ty(t)
@@ -361,6 +381,47 @@ def fmt_sprintf(it, st, args, fname):
         else:
             raise Unsupported(f'Sprintf %{spec}{verb} of {t} ({"symbolic" if is_sym(v) else type(v).__name__})')
     return ret(st, Str(out))
+
+
+MAX_DIGITS = 5
+
+
+def decimal_alternatives(it, st, v, tt):
+    """[(condition, digit bytes)] covering every value of v with at most MAX_DIGITS decimal digits;
+    values with more digits are excluded by a recorded VC-free assumption (callers bound the domain)"""
+    bits = tt['bits']
+    signed = tt.get('signed', False)
+    alts = []
+    V = v
+    if bits < 32:
+        V = z3.SignExt(32 - bits, v) if signed else z3.ZeroExt(32 - bits, v)
+        w = 32
+    else:
+        w = bits
+    signs = [(False, V)]
+    if signed:
+        signs = [(False, V), (True, -V)]
+    covered = []
+    for neg, M in signs:
+        sc = (V < 0) if neg else ((V >= 0) if signed else z3.BoolVal(True))
+        for d in range(1, MAX_DIGITS + 1):
+            lo = 0 if d == 1 else 10 ** (d - 1)
+            hi = 10 ** d
+            c = z3.And(sc, z3.UGE(M, lo), z3.ULT(M, hi)) if not (neg and d == 1) else z3.And(sc, z3.UGE(M, 1), z3.ULT(M, hi))
+            digs = []
+            for i in range(d):
+                p = 10 ** (d - 1 - i)
+                q = z3.UDiv(M, z3.BitVecVal(p, w)) if p > 1 else M
+                digs.append(z3.simplify(z3.Extract(7, 0, z3.URem(q, z3.BitVecVal(10, w)) + 48)))
+            alts.append((z3.simplify(c), ([45] if neg else []) + digs))
+            covered.append(c)
+    it.ctx.assumptions.add(f'decimal text of symbolic integers is modelled for at most {MAX_DIGITS} digits; larger values are outside the explored domain')
+    rest = z3.Not(z3.Or(*covered))
+    if it.feasible(st.pc, rest):
+        it.ctx.concretizations['decimal-digits-bound'] = MAX_DIGITS
+        # the remainder of the domain is not explored: make that visible as an (engine-limit) VC
+        it.vc(st, z3.Not(rest), 'fmt:%d-of-more-than-5-digits(model limit)', {'engine-limit': True})
+    return alts
 
 
 def hex_byte(b, hexd):
